@@ -91,6 +91,12 @@ Foreign ==
   /\ ~InboundBusy
   /\ last' = [a |-> "Foreign"] /\ UNCHANGED <<txn, closed>> /\ out' = {}
 
+(* an INDICATION that carries the transaction id of t (e.g. a Binding indication used as a keep-alive): not a
+   response, completes nothing *)
+Indication(t) ==
+  /\ ~InboundBusy
+  /\ last' = [a |-> "Indication", t |-> t] /\ UNCHANGED <<txn, closed>> /\ out' = {}
+
 (* Client.Close: every waiting caller gets an error *)
 Close ==
   /\ ~closed
@@ -123,7 +129,7 @@ Next ==
   \/ \E t \in Txns, fa \in FailAts : Start(t, fa)
   \/ \E t \in Txns : Response(t)
   \/ (SlowWrites /\ \E t \in Txns : StartSlow(t) \/ WriteDone(t))
-  \/ Foreign \/ Close
+  \/ Foreign \/ Close \/ (\E t \in Txns : Indication(t))
   \/ \E d \in Jumps : Advance(d)
 Spec == Init /\ [][Next]_vars
 \* liveness is checked under fairness of time (and nothing else): a pending transaction ends
